@@ -962,6 +962,36 @@ theorem projectRow_spec (cs : List String) (r r' : Row α) (h : projectRow cs r 
         · obtain ⟨v', hv1, hv2⟩ := h2 c' hc'
           exact ⟨v', hv1, List.mem_cons_of_mem _ hv2⟩
 
+/-- **dump_option_effect**: every option has its documented effect and no other — the per-option
+theorems collected.  Output with the flag = `f` (output without the flag) for the explicit `f`:
+ids `+1` on both id columns where present; starts `+1` on both start columns where present; join =
+ids replaced by the coordinates of both bins; balanced = one more column after `count`; annotate =
+the named bin columns of both bins appended; header = no data row changes; fill-lower = identity in
+square mode (and the completed sub-block in symmetric-upper mode: `fill_lower_symm`). -/
+theorem dump_option_effect (ops : Bal.Ops Int α) (s : Store α) (spansOf : Box → List (Nat × Nat))
+    (o : DumpOpts) :
+    (dumpRows ops s spansOf { o with oneBasedIds := true } =
+      (dumpRows ops s spansOf { o with oneBasedIds := false }).map (List.map (bump idCols))) ∧
+    (dumpRows ops s spansOf { o with oneBasedStarts := true } =
+      (dumpRows ops s spansOf { o with oneBasedStarts := false }).map (List.map (bump startCols))) ∧
+    (∀ p, annotateRow ops s { o with join := true } p =
+      (annotateRow ops s { o with join := false, oneBasedIds := false, oneBasedStarts := false } p).bind
+        fun r => (joinRow s p.i p.j r).map (bumpIf o.oneBasedStarts startCols)) ∧
+    (∀ p, annotateRow ops s { o with balanced := true } p =
+      (balancedCell ops s p).bind fun v =>
+        (annotateRow ops s { o with balanced := false } p).map
+          (insertAt (if o.join = true then 7 else 3) ("balanced", v))) ∧
+    (∀ fs p, annotateRow ops s { o with annotate := some fs } p =
+      ((sideCols s fs "1" p.i).bind fun a => (sideCols s fs "2" p.j).map fun b => a ++ b).bind fun e =>
+        (annotateRow ops s { o with annotate := none } p).map
+          (· ++ bumpIf o.oneBasedStarts startCols (bumpIf o.oneBasedIds idCols e))) ∧
+    (∀ h, dumpRows ops s spansOf { o with header := h } = dumpRows ops s spansOf o) ∧
+    (s.symm = false → ∀ f, dumpRows ops s spansOf { o with fillLower := f } = dumpRows ops s spansOf o) :=
+  ⟨one_based_ids_effect ops s spansOf o, one_based_starts_effect ops s spansOf o,
+    fun p => join_effect ops s o p, fun p => balanced_effect ops s o p,
+    fun fs p => annotate_effect ops s o fs p, fun h => header_effect ops s spansOf o h,
+    fun hs f => fill_lower_square ops s hs spansOf o f⟩
+
 end dump
 
 /-! ## 3. dump → load round trips -/
@@ -1579,6 +1609,58 @@ example : pairsRec (α := Int) ["c0", "c1"] (pairsFields 4 1 0 6 []) none
       [.str "c1", .int 12, .str ".", .str ".", .str "c0", .str ".", .int 3]
     = pairsRec (α := Int) ["c0", "c1"] (pairsFields 0 1 2 3 []) none [.str "c0", .int 12, .str "c1", .int 3] := by
   decide
+
+/-! ### the binning itself: L1 (`cloadPairs`) against L0 (`pairsSpec`) -/
+
+/-- the full statement: on a valid table, away from known finding D13, `cooler cload pairs` stores one
+unit per retained record in its pixel, whatever the reader chunks are.  NOT proved in full: what is
+missing is the algebra that merges per-chunk cell tables (`Sanitize.Cell`, signed keys, grouped in
+order of appearance) through `aggregateAll` (`Px`, natural keys) into the grouping of all records at
+once.  The correspondence evaluates both sides on every case and stops with an infrastructure error
+if they ever differ (`assert l1 == l0` in `harness/c16.py`). -/
+def cloadPairs_eq_spec_Statement : Prop :=
+  ∀ (o : PairsOpts) (bins : BinTable) (contigs : List String) (fields : List (String × Nat))
+    (value : Option String) (chunks : List (List (List (Val Int)))) (recs : List Sanitize.Rec),
+    Sanitize.TableOK bins → Bal.mapE (pairsRec contigs fields value) chunks.flatten = .ok recs →
+    Sanitize.atLength bins o.sanitize recs = false →
+    cloadPairs o bins contigs fields value chunks = pairsSpec o bins recs
+
+/-- what IS proved, per reader chunk: the chunk is accepted and its cell table holds, under every key,
+the number of retained records whose pixel it is; the counts add up to the number of retained records
+(C05 `sanitizeWith_sim`, `keyOf_eq_pixelOf`, `countAt_groupFirst`) -/
+theorem cloadPairs_eq_spec_partial (o : PairsOpts) (bins : BinTable) (hT : Sanitize.TableOK bins)
+    (contigs : List String) (fields : List (String × Nat)) (value : Option String)
+    (rows : List (List (Val α))) (recs : List Sanitize.Rec)
+    (hrec : Bal.mapE (pairsRec contigs fields value) rows = .ok recs)
+    (hin : ∀ a ∈ Sanitize.anchors o.sanitize recs, a.inside bins) :
+    ∃ cells, pairsChunk o bins contigs fields value rows = .ok cells ∧
+      (∀ k, Sanitize.countAt cells k =
+        (Sanitize.retained o.sanitize recs).countP (fun a => decide (Sanitize.pixelOf bins a = some k))) ∧
+      Sanitize.totalCount cells = (Sanitize.retained o.sanitize recs).length := by
+  have hpipe := C05.pipeline_of_inside (getBinsize bins) o.sanitize hin
+  have t1 : ¬ (o.sanitize.tril = .raise ∧ (Sanitize.anchors o.sanitize recs).any Sanitize.Anchor.lower = true) := by
+    intro h; cases hs : o.symm <;> cases hd : o.duplex <;> simp [PairsOpts.sanitize, hs, hd] at h
+  have t2 : ¬ (o.sanitize.tril = .bogus ∧ (Sanitize.anchors o.sanitize recs).any Sanitize.Anchor.lower = true) := by
+    intro h; cases hs : o.symm <;> cases hd : o.duplex <;> simp [PairsOpts.sanitize, hs, hd] at h
+  rw [if_neg t1, if_neg t2] at hpipe
+  obtain ⟨outs, ho, hperm⟩ := (C05.sanitizeWith_sim bins (getBinsize bins) o.sanitize recs).2 _ hpipe
+  have ho' : Sanitize.sanitizeRecords bins o.sanitize recs = .ok outs := ho
+  refine ⟨Sanitize.groupFirst (Sanitize.keyVals outs), ?_, ?_, ?_⟩
+  · unfold pairsChunk
+    rw [hrec]
+    simp only [ho']
+    rfl
+  · intro k
+    rw [C05.countAt_groupFirst, C05.countAt_groupCells, hperm.countP_eq, List.countP_map]
+    apply List.countP_congr
+    intro a ha
+    have := C05.keyOf_eq_pixelOf hT (C05.binsize_truthful hT) (C05.orient_inside hin a ha)
+    simp only [Function.comp, this, Option.some.injEq, decide_eq_true_eq]
+  · rw [C05.totalCount_groupFirst]
+    have := hperm.length_eq
+    simp only [Sanitize.keyVals, List.length_map] at this ⊢
+    rw [this]
+    rfl
 
 end pairs
 
